@@ -78,9 +78,9 @@ def _cases(ctx):
     deep = ctx.tier == "thorough" or ctx.deep
     for n in range(0, 4 if not deep else 5):
         yield from D.exhaustive_disp(n)
-    for _ in range(ctx.budget(1200, 30000)):
+    for _ in range(ctx.budget(900, 30000)):
         yield D.gen_disp(ctx.rng)
-    for _ in range(ctx.budget(120, 2500)):
+    for _ in range(ctx.budget(90, 2500)):
         yield D.gen_re(ctx.rng)
 
 
